@@ -1483,7 +1483,9 @@ int __wrap(pthread_spin_trylock)(pthread_spinlock_t *lock) {
   int ret;
   (void)_;
   if (myth_should_wrap_pthread()) {
-    ret = myth_spin_trylock_body((myth_spinlock_t *)lock);
+    /* myth_spin_trylock_body returns 1 when the lock was acquired;
+       POSIX wants 0 on success and EBUSY otherwise */
+    ret = (myth_spin_trylock_body((myth_spinlock_t *)lock) ? 0 : EBUSY);
   } else {
     ret = real_pthread_spin_trylock(lock);
   }
